@@ -1,6 +1,247 @@
 import Blue.Proofs.KvsWrite
 import Blue.Proofs.Rollover
-/-! Property C06: the theorems the check builds and audits (spike inventory; the build phase
-    completes the list from DESIGN Appendix C.0). -/
-#print axioms Blue.Rollover.snapshot_complete
-#print axioms Blue.Rollover.clear_before_install_loses
+import Blue.Proofs.KvsConc
+import Blue.Proofs.KvsConcHandoff
+import Blue.Proofs.ConstsTieC06
+/-! # Property C06 — concurrent reads/writes are linearizable; batches become visible atomically
+
+Property theorems only (helper lemmas and invariants live in `Blue/Proofs/{KvsWrite,Rollover,KvsConc,
+KvsConcHandoff}.lean`).
+
+Three executable models of `lsmtk/src/kvs/mod.rs`, one step per critical section or lock-free access,
+theorems for *every* interleaving of their events:
+
+* `Blue.KvsConc` — the joined system the correspondence check replays recorded runs through:
+  writers (`seq` assigned and memtable picked under the mutex and linked into the wait list; log
+  append; entry-by-entry skiplist inserts; return as head of the wait list), the flush thread
+  (rotate `mem → imm` and link; pass the wait list; install the version; clear `imm`), readers
+  (snapshot of `mem`, `imm`, version and a timestamp under the mutex; lookups afterwards).
+  `completed = true`: the timestamp is `visible`, the number of the last writer that left the
+  wait list (the repaired store, fixes/d6-read-at-last-completed-seq.diff); `completed = false`:
+  the last *assigned* number (the store as found, D-6).
+* `Blue.KvsWrite` — the writers alone, timestamp as found (the first model, kept: its theorems are
+  the as-found statements).
+* `Blue.Rollover` — rotate / install / clear as a snapshot sees them, entries = sequence numbers.
+
+Linearization: writes in sequence-number order, each at the moment it leaves the wait list
+(`wFin`, where `visible` becomes its number); a read at its snapshot.  `write_order` (numbers respect
+real time), `no_stale_read` + `snapshot_after_return_covers` (a read is not older than any write
+that returned before it began), `no_phantom` (it returns an entry some write put there, and that
+write had begun), `batch_atomic` + `snapshot_stable` (a snapshot sees a batch entirely or not at
+all, and never changes) are the obligations of that linearization on the model. -/
+namespace Blue.Props.C06
+open Blue.KvsWrite (Entry)
+
+/-! ## the joined model, repaired read timestamp -/
+section conc
+open Blue.KvsConc
+
+/-- **batches become visible atomically** (repaired): in every reachable state, every snapshot a
+    reader holds sees, of every write that has begun, the whole batch or nothing — at every later
+    moment too (`snapshot_stable`) -/
+theorem batch_atomic {seq0 mem0 : Nat} {evs : List Ev} {s : St}
+    (hrun : run (init true seq0 mem0) evs = some s)
+    (r : Nat × Snap) (hr : r ∈ s.readers) (w : Writer) (hw : w ∈ s.writers) :
+    (∀ kv ∈ w.batch, (⟨kv.1, w.seq, kv.2⟩ : Entry) ∈ view s r.2) ∨ (∀ e ∈ view s r.2, e.seq ≠ w.seq) :=
+  Blue.KvsConc.batch_atomic hrun r hr w hw
+
+/-- non-vacuity: a run with a rollover in the middle of a two-key batch and snapshots before,
+    between the two inserts, and after; the middle snapshot sees nothing of the batch, the last
+    sees both keys -/
+example :
+    (run (init true 2 1) [.rSnap 0 2 1 false, .wBegin 3 1 [(1, some 7), (2, some 8)], .wLog 3, .wIns 3 0,
+        .fRotate 3 1, .rSnap 1 2 3 true, .wIns 3 1, .wFin 3, .fHead 3, .rSnap 2 3 3 true, .fInstall 1,
+        .fClear 1]).map
+      (fun s => s.readers.map (fun r => (r.1, value s r.2 1, value s r.2 2)))
+      = some [(2, some 7, some 8), (1, none, none), (0, none, none)] := by decide
+
+/-- **an open cursor is a stable snapshot** (repaired): no later event — in particular no writer in
+    flight when the snapshot was taken — changes what the snapshot sees -/
+theorem snapshot_stable (evs : List Ev) {s s' : St} (h : Inv s) (hc : s.completed = true)
+    (r : Nat × Snap) (hr : r ∈ s.readers) (hrun : run s evs = some s') : view s' r.2 = view s r.2 :=
+  Blue.KvsConc.snapshot_stable evs h hc r hr hrun
+
+/-- … from the start: every reachable state satisfies the invariant -/
+theorem reachable_inv {c : Bool} {seq0 mem0 : Nat} {evs : List Ev} {s : St}
+    (hrun : run (init c seq0 mem0) evs = some s) : Inv s :=
+  Blue.KvsConc.inv_run evs (Blue.KvsConc.inv_init c seq0 mem0) hrun
+
+/-- **no stale read** (both read policies, all interleavings incl. rollover and flush): a reader
+    whose timestamp covers a write that has returned finds that write or a newer one for each of
+    its keys, whenever it looks -/
+theorem no_stale_read {c : Bool} {seq0 mem0 : Nat} {evs : List Ev} {s : St}
+    (hrun : run (init c seq0 mem0) evs = some s)
+    (r : Nat × Snap) (hr : r ∈ s.readers) (w : Writer) (hw : w ∈ s.writers) (hf : w.finished = true)
+    (hcov : w.seq ≤ r.2.ts) (k : Nat) (v : Option Nat) (hkv : (k, v) ∈ w.batch) :
+    ∃ e, lookup s r.2 k = some e ∧ w.seq ≤ e.seq :=
+  Blue.KvsConc.no_stale_read hrun r hr w hw hf hcov k v hkv
+
+/-- … and a snapshot taken after the write returned has such a timestamp -/
+theorem snapshot_after_return_covers {c : Bool} {seq0 mem0 : Nat} {evs : List Ev} {s s' : St}
+    (hrun : run (init c seq0 mem0) evs = some s)
+    (w : Writer) (hw : w ∈ s.writers) (hf : w.finished = true)
+    (rid ts mem : Nat) (imm : Bool) (hs : step s (.rSnap rid ts mem imm) = some s') : w.seq ≤ ts :=
+  Blue.KvsConc.snapshot_after_return_covers hrun w hw hf rid ts mem imm hs
+
+example : ∃ s, run (init true 2 1) [.wBegin 3 1 [(1, some 7)], .wLog 3, .wIns 3 0, .wFin 3, .rSnap 0 3 1 false] = some s
+    ∧ (s.readers.map (fun r => value s r.2 1)) = [some 7] := by decide
+
+/-- **never a value that was not written, never one from the future**: what a lookup returns is an
+    entry of the batch of the write with that sequence number, for the key asked, and that write
+    had begun when the snapshot was taken -/
+theorem no_phantom {c : Bool} {seq0 mem0 : Nat} {evs : List Ev} {s : St}
+    (hrun : run (init c seq0 mem0) evs = some s) (sn : Snap) (k : Nat) (e : Entry)
+    (hl : lookup s sn k = some e) :
+    e.seq ≤ sn.ts ∧ ∃ w ∈ s.writers, w.seq = e.seq ∧ (k, e.val) ∈ w.batch :=
+  Blue.KvsConc.no_phantom hrun sn k e hl
+
+/-- **the write order respects real time**: a write that begins gets a number beyond that of every
+    write that exists, in particular of every write that has returned -/
+theorem write_order {c : Bool} {seq0 mem0 : Nat} {evs : List Ev} {s s' : St}
+    (hrun : run (init c seq0 mem0) evs = some s) (q t : Nat) (b : List (Nat × Option Nat))
+    (hs : step s (.wBegin q t b) = some s') : ∀ w ∈ s.writers, w.seq < q :=
+  Blue.KvsConc.write_order hrun q t b hs
+
+/-- **rollover joined with the writers**: at every instant the tables a snapshot searches (mem, imm,
+    flushed) hold every entry inserted so far -/
+theorem snapshot_covers_all {c : Bool} {seq0 mem0 : Nat} {evs : List Ev} {s : St}
+    (hrun : run (init c seq0 mem0) evs = some s) : ∀ te ∈ s.ents, te.1 ∈ liveTables s :=
+  Blue.KvsConc.snapshot_covers_all hrun
+
+/-- **in-order completion through the wait list, flush side**: once the flush thread has passed the
+    wait list, every writer that picked the now immutable memtable has returned and the table holds
+    its whole batch (the file the flush writes is complete); the same for every flushed table -/
+theorem flushed_table_complete {c : Bool} {seq0 mem0 : Nat} (hm : mem0 < seq0) {evs : List Ev} {s : St}
+    (hrun : run (init c seq0 mem0) evs = some s) (t : Nat)
+    (ht : (s.sealed = true ∧ s.imm = some t) ∨ t ∈ s.flushed) :
+    ∀ w ∈ s.writers, w.tbl = t → w.finished = true ∧
+      ∀ kv ∈ w.batch, (t, (⟨kv.1, w.seq, kv.2⟩ : Entry)) ∈ s.ents :=
+  Blue.KvsConc.flushed_table_complete hm hrun t ht
+
+/-- … so nothing is ever inserted into a table that is being or has been flushed -/
+theorem insert_only_into_open_table {c : Bool} {seq0 mem0 : Nat} (hm : mem0 < seq0) {evs : List Ev} {s s' : St}
+    (hrun : run (init c seq0 mem0) evs = some s) (seq idx : Nat) (w : Writer)
+    (hf : findWriter s seq = some w) (hs : step s (.wIns seq idx) = some s') :
+    (s.sealed = true → s.imm ≠ some w.tbl) ∧ w.tbl ∉ s.flushed :=
+  Blue.KvsConc.insert_only_into_open_table hm hrun seq idx w hf hs
+
+example : ∃ s, run (init true 2 1) [.wBegin 3 1 [(1, some 7)], .wLog 3, .fRotate 3 1, .wIns 3 0, .wFin 3, .fHead 3,
+    .fInstall 1] = some s ∧ s.sealed = true ∧ s.flushed = [1] ∧ s.imm = some 1 := by decide
+
+end conc
+
+/-! ## the read timestamp as found (D-6) -/
+section asfound
+open Blue.KvsConc
+
+/-- `batch_atomic` is false for the store as found: a snapshot taken between the two inserts of one
+    batch sees the first entry and not the second (joined model; the harness reproduces this run
+    on the real store with a directed schedule) -/
+theorem batch_atomic_fails_as_found :
+    (run (init false 2 1) [.wBegin 3 1 [(1, some 7), (2, some 7)], .wLog 3, .wIns 3 0, .rSnap 0 3 1 false]).map
+      (fun s => (value s ⟨3, [1]⟩ 1, value s ⟨3, [1]⟩ 2)) = some (some 7, none) :=
+  Blue.KvsConc.batch_atomic_fails_as_found
+
+/-- … and an open cursor is not a stable snapshot as found: a writer in flight when the snapshot is
+    taken becomes visible to it when it completes -/
+theorem snapshot_unstable_as_found :
+    (run (init false 2 1) [.wBegin 3 1 [(1, some 7)], .wLog 3, .rSnap 0 3 1 false]).map
+      (fun s => value s ⟨3, [1]⟩ 1) = some none ∧
+    (run (init false 2 1) [.wBegin 3 1 [(1, some 7)], .wLog 3, .rSnap 0 3 1 false, .wIns 3 0, .wFin 3]).map
+      (fun s => value s ⟨3, [1]⟩ 1) = some (some 7) :=
+  Blue.KvsConc.snapshot_unstable_as_found
+
+/-- the same schedule on the repaired store -/
+theorem repaired_same_schedule :
+    run (init true 2 1) [.wBegin 3 1 [(1, some 7), (2, some 7)], .wLog 3, .wIns 3 0, .rSnap 0 3 1 false] = none ∧
+    (run (init true 2 1) [.wBegin 3 1 [(1, some 7), (2, some 7)], .wLog 3, .wIns 3 0, .rSnap 0 2 1 false,
+        .wIns 3 1, .wFin 3]).map
+      (fun s => (value s ⟨2, [1]⟩ 1, value s ⟨2, [1]⟩ 2, readTs s)) = some (none, none, 3) :=
+  Blue.KvsConc.repaired_same_schedule
+
+end asfound
+
+/-! ## the writers alone, as found (`Blue.KvsWrite`) -/
+section kvswrite
+open Blue.KvsWrite
+
+/-- D-6 on the first model: after the first of two entries of a batch is in the memtable a reader
+    sees it and not the second -/
+theorem partial_batch_visible :
+    let s := run [.begin [(1, some 7), (2, some 7)], .insertOne 1]
+    (load s 1).map (·.val) = some (some 7) ∧ load s 2 = none :=
+  Blue.KvsWrite.partial_batch_visible
+
+/-- what does hold as found (`batch_atomic_partial`): a batch whose write has returned is entirely
+    visible to every scan opened afterwards.  Missing for the full statement: batches still being
+    inserted — that part is false as found (`partial_batch_visible`) and is `batch_atomic` above for
+    the repaired store -/
+theorem returned_batch_fully_visible (evs : List Ev) (w : Writer) (hw : w ∈ (run evs).writers)
+    (hfin : w.finished = true) :
+    ∀ kv ∈ w.batch, (⟨kv.1, w.seq, kv.2⟩ : Entry) ∈ scanView (run evs) :=
+  Blue.KvsWrite.returned_batch_fully_visible evs w hw hfin
+
+/-- once a write has returned, every later `load` of one of its keys returns it or a newer one -/
+theorem no_stale_read_as_found (evs : List Ev) (w : Writer) (hw : w ∈ (run evs).writers) (hfin : w.finished = true)
+    (k : Nat) (v : Option Nat) (hkv : (k, v) ∈ w.batch) :
+    ∃ r, load (run evs) k = some r ∧ w.seq ≤ r.seq :=
+  Blue.KvsWrite.no_stale_read evs w hw hfin k v hkv
+
+example : ∃ w ∈ (run [.begin [(1, some 7)], .insertOne 1, .finish 1]).writers, w.finished = true ∧ w.batch = [(1, some 7)] := by
+  decide
+
+/-- the writers' invariant holds in every reachable state -/
+theorem winv_run (evs : List Ev) : WInv (run evs) := Blue.KvsWrite.winv_run evs
+
+/-- every entry in the memtable carries a sequence number that has been assigned -/
+theorem mem_seq_assigned (evs : List Ev) : ∀ e ∈ (run evs).mem, 1 ≤ e.seq ∧ e.seq ≤ (run evs).seqNo :=
+  Blue.KvsWrite.mem_seq_assigned evs
+
+end kvswrite
+
+/-! ## rollover as a snapshot sees it (`Blue.Rollover`) -/
+section rollover
+open Blue.Rollover
+
+/-- at every instant of rotate / install / clear a snapshot taken under the mutex holds exactly the
+    entries written so far, newest first; the only thing it can hold twice is the immutable
+    memtable, then also the first file of the version -/
+theorem snapshot_complete (evs : List Ev) :
+    let s := evs.foldl step init
+    (∀ e, e < s.next ↔ e ∈ (snapshot s).flatten)
+    ∧ (canon s).flatten.Pairwise (fun a b => b < a)
+    ∧ (snapshot s = canon s ∨ ∃ m rest, snapshot s = s.mem :: m :: m :: rest ∧ canon s = s.mem :: m :: rest) :=
+  Blue.Rollover.snapshot_complete evs
+
+/-- mutant: dropping the immutable memtable before the version is installed loses acknowledged
+    writes for a snapshot taken in between -/
+theorem clear_before_install_loses :
+    let s := [Ev.write, .write, .rotate, .clear].foldl stepBad init
+    (snapshot s).flatten = [] ∧ s.next = 2 :=
+  Blue.Rollover.clear_before_install_loses
+
+end rollover
+
+end Blue.Props.C06
+
+#print axioms Blue.Props.C06.batch_atomic
+#print axioms Blue.Props.C06.snapshot_stable
+#print axioms Blue.Props.C06.reachable_inv
+#print axioms Blue.Props.C06.no_stale_read
+#print axioms Blue.Props.C06.snapshot_after_return_covers
+#print axioms Blue.Props.C06.no_phantom
+#print axioms Blue.Props.C06.write_order
+#print axioms Blue.Props.C06.snapshot_covers_all
+#print axioms Blue.Props.C06.flushed_table_complete
+#print axioms Blue.Props.C06.insert_only_into_open_table
+#print axioms Blue.Props.C06.batch_atomic_fails_as_found
+#print axioms Blue.Props.C06.snapshot_unstable_as_found
+#print axioms Blue.Props.C06.repaired_same_schedule
+#print axioms Blue.Props.C06.partial_batch_visible
+#print axioms Blue.Props.C06.returned_batch_fully_visible
+#print axioms Blue.Props.C06.no_stale_read_as_found
+#print axioms Blue.Props.C06.winv_run
+#print axioms Blue.Props.C06.mem_seq_assigned
+#print axioms Blue.Props.C06.snapshot_complete
+#print axioms Blue.Props.C06.clear_before_install_loses
+#print axioms Blue.ConstsTie.kvs_read_policy
